@@ -14,11 +14,31 @@ from common import (Verdict, coq_eval_files, gen_dir, log, parse_pairs, proof_st
                     write_evidence, TRUSTED_BASE)
 
 BITS = dict(OUTCOME=1, SELECTED=2, EVENT=4, MICRO=8, CONFIG=16, QUEUES=32, MEMORY=64, TIMES=128,
-            TRACE=256, CTX=512, LOGS=1024, BOUND=2048, PROPS=4096)
+            TRACE=256, CTX=512, LOGS=1024, BOUND=2048, PROPS=4096, PB_LEGAL=8192, PB_QINV=16384,
+            PB_META=32768, PB_DELIV=65536, PB_REPLAY=131072, PB_TIMES=262144, OLD=524288, PB_HIST=1048576, PB_SLOTS=2097152, PB_FAIL=4194304)
+B = type('B', (), BITS)
+KIND_CODES = {0: None, 1: 'entry', 2: 'exit', 3: 'action', 4: 'guard', 5: 'pre', 6: 'inv', 7: 'post'}
+OUT_CODES = {0: 'none', 1: 'macro-none', 2: 'macro', 3: 'ENonDeterminism', 4: 'EConflict', 5: 'EContract',
+             6: 'ECode', 7: 'EProperty', 8: 'EStatechart', 9: 'EKey', 10: 'EAssert', 11: 'EFuel'}
+
+
+def decode(m):
+    """-> (mask, (kind of the implementation's, of the model's call at the first difference), model outcome)"""
+    fi, fm = KIND_CODES.get((m >> 24) & 15), KIND_CODES.get((m >> 28) & 15)
+    return m & 0xffffff, (None if fi is None and fm is None else (fi, fm)), OUT_CODES.get((m >> 32) & 15)
 
 
 def bits_names(m):
     return [k for k, v in BITS.items() if m & v]
+
+
+def impl_outcome(case):
+    o = case['out']
+    if o[0] == 'none':
+        return 'none'
+    if o[0] == 'err':
+        return o[1][0]
+    return 'macro-none' if o[1] is None else 'macro'
 
 
 def make_event(rng):
@@ -115,9 +135,14 @@ def run_scenario(rng, chart, spec, cases, stats, chart_key):
     order = list(range(nl))
     rng.shuffle(order)
     g0 = rng.getrandbits(12) if spec.guard_init == 'random' else 4095
-    sc = sx.Scenario(chart, ignore_contract=spec.ignore_contract, initial_context=None, props=props,
+    holder = {}
+
+    def tick():
+        holder['sc'].clock.time += 1
+    sc = sx.Scenario(chart, ignore_contract=spec.ignore_contract, initial_context={'tick': tick}, props=props,
                      n_rec=spec.n_rec, bound_callables=spec.bound_callables, bound_charts=bcharts,
                      listener_order=order)
+    holder['sc'] = sc
     sc.interp._evaluator._context['g'] = g0
     n = rng.randint(*spec.n_ops)
     dead = False
